@@ -237,7 +237,22 @@ def rough(seed):
     return es, vs, truth
 
 
+def negated(seed):
+    """SE(3) graph in which every other measurement, vertex and offset quaternion is stored with a NEGATIVE scalar part (the same rotations)."""
+    es, vs, truth = make('SE3', seed)
+    for j, e in enumerate(es):
+        if len(np.asarray(e.estimate)) == 7 and (j % 2 == 0) == (e.estimate[6] > 0):
+            e.estimate[3:] = -e.estimate[3:]
+        if getattr(e, 'offset', None) is not None and len(np.asarray(e.offset)) == 7 and (j % 2 == 1) == (e.offset[6] > 0):
+            e.offset[3:] = -e.offset[3:]
+    for j, v in enumerate(vs):
+        if len(v.pose) == 7 and (j % 2 == 0) == (v.pose[6] > 0):
+            v.pose[3:] = -v.pose[3:]
+    return es, vs, truth
+
+
 TEMPLATES = {
+    'se3neg': negated,
     'se3rough': rough,
     'se2desc': lambda s: make('SE2', s, ids=lambda j: 100 - 7 * j),                    # the first listed vertex does NOT carry the smallest id
     'se3desc': lambda s: make('SE3', s, ids=lambda j: (-1) ** j * (3 * j + 2), fixed=(2,)),
